@@ -168,6 +168,8 @@ def gen_gfa1(rng, k):
         st = ostyle if ostyle != "mixed" else rng.choice(["star", "match", "asym", "all"])
         la = seglen[a] if seglen[a] is not None else 9
         lb = seglen[b] if seglen[b] is not None else 9
+        if k.get("lens", False):
+            la, lb = la - 1, lb - 1
         ov = gen_cigar(rng, st, la, lb)
         key_a = (a, fo, b, to)
         key_b = (b, inv(to), a, inv(fo))
